@@ -12,7 +12,9 @@ META = dict(
                 "model (ideal service, interleaved calls, adversarial exchange handing back requested / unrequested / corrupted / "
                 "rejected-CID blocks in any order, closing early or failing) and shows that the as-built deviation breaks them.  "
                 "TLC enumerates request multisets <= 3 (with duplicates, up to renaming) x partially local data x every exchange "
-                "script of <= 3 (quick: 2) deliveries over a 7-block alphabet, GetBlock and session variants; each scenario is "
+                "script of <= 3 (quick: 2) deliveries over a 7-block alphabet, CID aliases (same multihash as CIDv1 raw / dag-pb / "
+                "CIDv0) in requests, store and exchange answers, the k-th Put of the local store failing for every k, GetBlock and "
+                "session variants; each scenario is "
                 "executed on blockservice.New with a recording blockstore and a scripted exchange and every recorded step is "
                 "validated by TLC against the spec; concurrent GetBlocks/GetBlock/AddBlock(s) histories over ~30 blocks against "
                 "a reordering / lossy / duplicating / early-closing exchange are recorded and validated the same way."),
@@ -31,7 +33,8 @@ def run(ctx):
                         "the CID registry snapshot spec/CidPolicy/CidRegistry.tla names the kinds used (checked by Kind events)"]
     ctx.cov["rule"] = ("scenario = request pattern (<= 3 keys, duplicates, up to renaming) x subset of requested blocks already local "
                        "x exchange script (every sequence of <= 3 deliveries over {3 requested-able blocks, 2 corrupted ones, 1 "
-                       "unrequested, 1 rejected-CID}, close or fail) + GetBlock x any returned block + session variants + repeated "
+                       "unrequested, 1 rejected-CID}, close or fail) + alias requests x alias answers + failing Put at every "
+                       "position + GetBlock x any returned block or alias x Put failing + session variants + repeated "
                        "request; non-trivial = at least one miss and at least one delivery that must not be handed on.  T: concurrent "
                        "random histories over 33 accepted and 15 other CIDs")
     c04.run_blockservice(ctx, "C05")
